@@ -62,6 +62,28 @@ def _maf_sibling(spec, r):
     return sib
 
 
+def _bnaf_sibling(spec, r):
+    """Another block autoregressive network whose weight matrices have the SAME shapes but a different (dim, block size)
+    split (e.g. dim 2 x block 2 and dim 4 x block 1 are both 4x4), if one exists: built in the same process first."""
+    if spec.get("kind") != "bnaf":
+        return None
+    d, b, depth = spec["dim"], spec.get("block_dim", 2), spec.get("depth", 1)
+    hidden = d * b if depth > 0 else d
+    cands = []
+    for d2 in (1, 2, 3, 4, 6):
+        for b2 in (1, 2, 3, 4, 6):
+            for depth2 in (0, 1, 2):
+                h2 = d2 * b2 if depth2 > 0 else d2
+                if d2 != d and (h2 == hidden or d2 == hidden or h2 == d):
+                    cands.append((d2, b2, depth2))
+    if not cands:
+        return None
+    d2, b2, depth2 = r.choice(sorted(cands))
+    sib = dict(spec)
+    sib.update({"dim": d2, "block_dim": b2, "depth": depth2, "cond_dim": None, "mode": "single", "layers": 1, "seed": r.randrange(2**31)})
+    return sib
+
+
 MAX_VALS = [0.5, 1.0, 2.0, 3.0, 5.0, 8.0, 8.0, 12.0, 20.0]
 
 
@@ -714,6 +736,10 @@ def _world_for_seeded(prop, tier, seed, idx):
         # history: 0-2 other layers are built in the same process before the model under test
         pre = []
         sib = _maf_sibling(w["model"], r)
+        if sib is None and w["model"].get("kind") == "bnaf" and r.random() < 0.7:
+            sb = _bnaf_sibling(w["model"], rng_for(seed, prop, tier, "bnaf-sibling", idx))
+            if sb is not None:
+                pre.append(sb)
         if sib is not None and r.random() < 0.8:
             pre.append(sib)
         elif r.random() < 0.4:
